@@ -19,7 +19,7 @@ def run_check(prop, repo, tier, runs=None):
 def main():
     ap = argparse.ArgumentParser()
     ap.add_argument('--tier', default='quick'); ap.add_argument('--only'); ap.add_argument('--seeded', action='store_true')
-    ap.add_argument('--check-tests', action='store_true'); ap.add_argument('--props')
+    ap.add_argument('--check-tests', action='store_true'); ap.add_argument('--props'); ap.add_argument('--out')
     a = ap.parse_args()
     results = []
     items = []
@@ -64,9 +64,11 @@ def main():
                 sys.stdout.flush()
         finally:
             shutil.rmtree(scratch, ignore_errors=True)
-    for f in os.listdir(os.path.join(V, 'replays')):
+    for f in ([] if a.out else os.listdir(os.path.join(V, 'replays'))):
         if f.endswith('.json'): os.unlink(os.path.join(V, 'replays', f))
     out = os.path.join(V, 'sensitivity', 'results-%s%s.json' % (a.tier, '-seeded' if a.seeded else ''))
+    if a.out:
+        json.dump(results, open(a.out, 'w'), indent=1); print('written', a.out); return
     if a.only and os.path.exists(out):
         # a partial run updates the stored table instead of replacing it
         old = json.load(open(out))
